@@ -71,7 +71,20 @@ _STATE_RE = re.compile(r"^State (\d+): ", re.M)
 
 def run_tlc(module, cfg, env=None, workers=16, simulate=None, timeout=1500,
             coverage=False, extra=(), heap="8g", tag=None):
-    """Run TLC on spec/<module>.tla with spec/<cfg>; returns a TlcResult."""
+    """Run TLC on spec/<module>.tla with spec/<cfg>; returns a TlcResult.
+    TLC 1.8 has a rare race between workers normalising a shared record value ("Field name s occurs
+    multiple times in record", seen once in several thousand runs): an *internal* TLC exception is
+    retried (twice, the last time with one worker) before it is reported as a machinery failure."""
+    for attempt in (1, 2, 3):
+        try:
+            return _run_tlc(module, cfg, env, workers if attempt < 3 else 1, simulate, timeout, coverage, extra, heap, tag)
+        except MachineryError as exc:
+            if attempt == 3 or "TLC threw an unexpected exception" not in str(exc) or "occurs multiple times in record" not in str(exc):
+                raise
+            print("NOTE: TLC internal exception on %s (attempt %d), retrying" % (module, attempt), flush=True)
+
+
+def _run_tlc(module, cfg, env, workers, simulate, timeout, coverage, extra, heap, tag):
     meta = os.path.join(workdir(), "tlc_%s_%d" % (tag or module, int(time.time() * 1000) % 10**9))
     os.makedirs(meta, exist_ok=True)
     cmd = ["java", "-XX:+UseParallelGC", "-Xmx" + heap, "-Xss64m", "-cp", TLA_CP, "tlc2.TLC",
@@ -124,7 +137,8 @@ def run_tlc(module, cfg, env=None, workers=16, simulate=None, timeout=1500,
         r.violated, r.kind = "temporal", "liveness"
     if r.violated is None:
         m3 = re.search(r"Error: Evaluating invariant (\S+) failed", out)
-        raise MachineryError("TLC failed on %s/%s:\n%s" % (module, cfg, out[-3000:]))
+        internal = re.search(r"TLC threw an unexpected exception(?:.*\n){0,6}", out)
+        raise MachineryError("TLC failed on %s/%s:\n%s%s" % (module, cfg, (internal.group(0) + "...\n") if internal else "", out[-3000:]))
     # last state of the error trace
     idx = [mm.start() for mm in _STATE_RE.finditer(out)]
     r.n_trace_states = len(idx)
